@@ -35,7 +35,7 @@ for d in sorted(glob.glob("/verif/seeded/*/")):
             if os.path.exists(d + "demo.py"):
                 sh(f"cp {d}demo.py {wt}/demo.py")
                 rec["demo_exit_with_change"] = sh(f"cd {wt} && {env} /venv/bin/python demo.py", timeout=600).returncode
-                sh(f"cd {wt} && git diff -- src > /tmp/pdt-reverify-{sid}.diff && git apply -R /tmp/pdt-reverify-{sid}.diff")
+                sh(f"cd {wt} && git diff HEAD -- src > /tmp/pdt-reverify-{sid}.diff && git checkout HEAD -- src")
                 rec["demo_exit_without_change"] = sh(f"cd {wt} && {env} /venv/bin/python demo.py", timeout=600).returncode
                 sh(f"cd {wt} && git apply /tmp/pdt-reverify-{sid}.diff")
             # the checks, pointed at the scratch worktree (PDT_REPO_SRC) so that /repo stays untouched; the first
